@@ -235,6 +235,14 @@ func GenHistory(t *rapid.T, p *Profile, thorough bool) History {
 	if p.Prefix != nil {
 		h.Blocks = append(h.Blocks, p.Prefix(func(label string, n int) int { return uni(t, label, n) })...)
 	}
+	if p.VoteGen != nil {
+		// setup and prefix blocks get generated vote behaviour too (block index -1: "before the generated part")
+		for i := range h.Blocks {
+			if h.Blocks[i].Votes == nil {
+				h.Blocks[i].Votes = p.VoteGen(func(label string, n int) int { return uni(t, label, n) }, h.Genesis.NumValidators, -1)
+			}
+		}
+	}
 	maxB := p.MaxBlocks
 	if thorough && p.ThoroughScale > 1 {
 		maxB *= p.ThoroughScale
